@@ -465,7 +465,7 @@ class MaskedTransformer(Transformer):
         rebuilt = tuple(self.visit(i, **kwargs) for i in o.children)
         if kwargs['parent_active']:
             return self._rebuild(o, rebuilt)
-        return tuple(i for i in rebuilt if i is not None) or None
+        return tuple(flatten(i for i in rebuilt if i is not None)) or None
 
     def visit_ScopedNode(self, o, **kwargs):
         if o in self.mapper:
@@ -489,7 +489,7 @@ class MaskedTransformer(Transformer):
         if kwargs['parent_active']:
             o._update(*rebuilt)
             return o
-        return tuple(i for i in rebuilt if i is not None) or None
+        return tuple(flatten(i for i in rebuilt if i is not None)) or None
 
 
 class NestedMaskedTransformer(MaskedTransformer):
